@@ -114,7 +114,7 @@ def run(ctx):
         ka, kb = (("seq_opposed",), ("seq_opposed",)) if i % 3 != 2 else (("sequence",), ("sequence", "prune", "plan"))
         explore2.explore(ctx, "C07", r.fork(), kindsA=ka, kindsB=kb, max_points=(7 if ctx.quick else 40), state_cmds=8, post_oracle=post,
                          weights={"new_task": 60, "new_epic": 5, "set": 10, "sequence": 20})
-    ctx.cov["rule"] = ("two-process schedules sequence ∥ sequence (opposite directions of one edge) with the acyclicity post-oracle; random event lists → Go replayEvents/hasCycle vs model; seeded histories of link/unlink/prune/plan with ≥30% cycle-closing or "
+    ctx.cov["rule"] = ("dense random DAGs of 4–7 tasks: every `sequence` answer compared with a path search, then every closing edge of the graph reached must be refused; two-process schedules sequence ∥ sequence (opposite directions of one edge) with the acyclicity post-oracle; random event lists → Go replayEvents/hasCycle vs model; seeded histories of link/unlink/prune/plan with ≥30% cycle-closing or "
                        "mixed-kind attempts; oracle: DFS acyclicity + kind + liveness + deps/rdeps mirror + exact edge effect of sequence")
 
 
